@@ -707,7 +707,7 @@ def run(tier, seed):
         for i in range(0, len(lc), 40):
             items.append(('dm1', dll, lc[i:i + 40], seed))
         A = hist_alphabet()
-        depth = 3 if quick else 4
+        depth = 3 if quick else 5
         for a in A:
             if quick:
                 items.append(('hist', dll, (a,), depth, seed))
@@ -719,11 +719,11 @@ def run(tier, seed):
         for n in (1, 2, 3, 14, 15, 40):
             items.append(('exchange', dll, n, seed))
         items.append(('dynsub', dll, seed))
-    for n in (1, 2, 5):
+    for n in ((1, 2, 5) if quick else (1, 2, 3, 4, 5, 8)):
         items.append(('race', 'j1939-21', n, seed))
         items.append(('race_rx', 'j1939-21', n, seed))
     return run_check(PROP, tier, seed, 'exploration', items, worker, RULE, ASSUME,
-                     bounds={'dtc_counts': '1..400' if not quick else counts, 'history_depth': 3 if quick else 4})
+                     bounds={'dtc_counts': '1..400' if not quick else counts, 'history_depth': 3 if quick else 5})
 
 
 def replay(rec):
